@@ -12,6 +12,7 @@ pub mod channel {
             pub fn new() -> Self { Fifo(VecDeque::new()) }
             pub fn push(&mut self, t: T) { self.0.push_back(t) }
             pub fn pop(&mut self) -> Option<T> { self.0.pop_front() }
+            pub fn len(&self) -> usize { self.0.len() }
         }
     }
     #[cfg(kani)]
@@ -26,6 +27,7 @@ pub mod channel {
                 self.buf[at] = Some(t);
                 self.len += 1;
             }
+            pub fn len(&self) -> usize { self.len }
             pub fn pop(&mut self) -> Option<T> {
                 if self.len == 0 { return None; }
                 let t = self.buf[self.head].take();
@@ -36,16 +38,30 @@ pub mod channel {
         }
     }
     use q::Fifo;
-    struct Q<T>(UnsafeCell<Fifo<T>>);
+    struct Q<T>(UnsafeCell<Fifo<T>>, Option<usize>);   // queue, capacity (None = unbounded)
     unsafe impl<T: Send> Send for Q<T> {}
     unsafe impl<T: Send> Sync for Q<T> {}
     pub struct Sender<T>(Arc<Q<T>>);
     pub struct Receiver<T>(Arc<Q<T>>);
     #[derive(Debug)] pub struct SendError<T>(pub T);
+    #[derive(Debug)] pub enum TrySendError<T> { Full(T), Disconnected(T) }
     #[derive(Debug)] pub struct TryRecvError;
     impl<T> Clone for Sender<T> { fn clone(&self) -> Self { Sender(self.0.clone()) } }
     impl<T> Clone for Receiver<T> { fn clone(&self) -> Self { Receiver(self.0.clone()) } }
-    impl<T> Sender<T> { pub fn send(&self, t: T) -> Result<(), SendError<T>> { unsafe { (*self.0 .0.get()).push(t); } Ok(()) } }
+    impl<T> Sender<T> {
+        /// single-threaded stand-in: a `send` on a full bounded channel would block forever; that is reported as a panic
+        pub fn send(&self, t: T) -> Result<(), SendError<T>> {
+            if let Some(cap) = self.0 .1 { if unsafe { (*self.0 .0.get()).len() } >= cap { panic!("stub channel: send on a full bounded channel would block"); } }
+            unsafe { (*self.0 .0.get()).push(t); } Ok(())
+        }
+        /// Verification aid: the capacity this channel was created with (None = unbounded).
+        #[doc(hidden)] pub fn verif_capacity(&self) -> Option<usize> { self.0 .1 }
+        pub fn try_send(&self, t: T) -> Result<(), TrySendError<T>> {
+            if let Some(cap) = self.0 .1 { if unsafe { (*self.0 .0.get()).len() } >= cap { return Err(TrySendError::Full(t)); } }
+            unsafe { (*self.0 .0.get()).push(t); } Ok(())
+        }
+    }
     impl<T> Receiver<T> { pub fn try_recv(&self) -> Result<T, TryRecvError> { unsafe { (*self.0 .0.get()).pop() }.ok_or(TryRecvError) } }
-    pub fn unbounded<T>() -> (Sender<T>, Receiver<T>) { let q = Arc::new(Q(UnsafeCell::new(Fifo::new()))); (Sender(q.clone()), Receiver(q)) }
+    pub fn unbounded<T>() -> (Sender<T>, Receiver<T>) { let q = Arc::new(Q(UnsafeCell::new(Fifo::new()), None)); (Sender(q.clone()), Receiver(q)) }
+    pub fn bounded<T>(cap: usize) -> (Sender<T>, Receiver<T>) { let q = Arc::new(Q(UnsafeCell::new(Fifo::new()), Some(cap))); (Sender(q.clone()), Receiver(q)) }
 }
